@@ -903,9 +903,14 @@ def parse_inst(text, mod):
 
 def parse_bundles(s):
     out = []
-    for m in re.finditer(r'"(\w+)"\(([^)]*)\)', s):
+    for m in re.finditer(r'"(\w+)"\(', s):
         tag = m.group(1)
-        cur = _Cursor(m.group(2))
+        # operands up to the matching parenthesis (constant expressions such as inttoptr (i64 4 to i8*) nest)
+        depth, j = 1, m.end()
+        while j < len(s) and depth:
+            depth += {"(": 1, ")": -1}.get(s[j], 0)
+            j += 1
+        cur = _Cursor(s[m.end():j - 1])
         vals = []
         while not cur.eof():
             vals.append(parse_typed_value(cur))
